@@ -3,13 +3,15 @@ package h
 // C12 — bytecode post-processing preserves behaviour: constant
 // de-duplication, and writing bytecode out and reading it back. The
 // reflection-driven codec (encoding/gob) itself cannot be executed by the
-// engine: it is replaced by a model (gobModel below: what gob hands back for
-// the registered types), after which tengo's own fix-up of decoded objects
-// (fixDecodedObject) is executed; the native replay uses the real
-// Encode/Decode, so every replayed path also validates the model.
+// engine: the engine runs the real Bytecode.Encode and Bytecode.Decode and
+// replaces only (*gob.Encoder).Encode / (*gob.Decoder).Decode by a model
+// (vf.SetGob; gobModel below: what gob hands back for the registered types);
+// the native replay uses the real package, so every replayed path also
+// validates the model.
 
 import (
 	"bytes"
+	"io"
 
 	"github.com/d5/tengo/v2"
 	"github.com/d5/tengo/v2/parser"
@@ -353,9 +355,15 @@ func gobModelFileSet(fs *parser.SourceFileSet) *parser.SourceFileSet {
 			nf.Lines = append([]int(nil), f.Lines...)
 		}
 		out.Files = append(out.Files, nf)
-		if f == fs.LastFile {
-			out.LastFile = nf
+	}
+	if f := fs.LastFile; f != nil {
+		// gob does not preserve pointer sharing: the cached last file comes back
+		// as a copy of its own, not as the element of Files it was
+		nf := &parser.SourceFile{Name: f.Name, Base: f.Base, Size: f.Size}
+		if len(f.Lines) > 0 {
+			nf.Lines = append([]int(nil), f.Lines...)
 		}
+		out.LastFile = nf
 	}
 	return out
 }
@@ -364,24 +372,38 @@ func gobModelFileSet(fs *parser.SourceFileSet) *parser.SourceFileSet {
 // engine the codec is the model above followed by the real fix-up of decoded
 // objects; natively it is the real Bytecode.Encode / Bytecode.Decode.
 func writeReadBack(bc *tengo.Bytecode, mods *tengo.ModuleMap) (*tengo.Bytecode, error) {
-	if !vf.Symbolic() {
-		var buf bytes.Buffer
-		if err := bc.Encode(&buf); err != nil {
-			return nil, err
-		}
-		out := &tengo.Bytecode{}
-		if err := out.Decode(bytes.NewReader(buf.Bytes()), mods); err != nil {
-			return nil, err
-		}
-		return out, nil
+	if vf.Symbolic() {
+		// the stream: values in the order they were encoded
+		var q []interface{}
+		vf.SetGob(func(e interface{}) error {
+			q = append(q, e)
+			return nil
+		}, func(p interface{}) error {
+			if len(q) == 0 {
+				return io.EOF
+			}
+			v := q[0]
+			q = q[1:]
+			switch d := p.(type) {
+			case **parser.SourceFileSet:
+				*d = gobModelFileSet(v.(*parser.SourceFileSet))
+			case **tengo.CompiledFunction:
+				*d = gobModel(v.(*tengo.CompiledFunction)).(*tengo.CompiledFunction)
+			case *[]tengo.Object:
+				*d = gobModelSlice(v.([]tengo.Object))
+			default:
+				vf.Fail("gob model: Decode into a destination the model does not know")
+			}
+			return nil
+		})
 	}
-	out := &tengo.Bytecode{FileSet: gobModelFileSet(bc.FileSet), MainFunction: gobModel(bc.MainFunction).(*tengo.CompiledFunction)}
-	for _, c := range bc.Constants {
-		fv, err := tengo.VerifFixDecoded(gobModel(c), mods)
-		if err != nil {
-			return nil, err
-		}
-		out.Constants = append(out.Constants, fv)
+	var buf bytes.Buffer
+	if err := bc.Encode(&buf); err != nil {
+		return nil, err
+	}
+	out := &tengo.Bytecode{}
+	if err := out.Decode(bytes.NewReader(buf.Bytes()), mods); err != nil {
+		return nil, err
 	}
 	return out, nil
 }
@@ -519,4 +541,67 @@ func C12_Gen() {
 	vf.Assert(errText(e1) == errText(e3), "same error text and positions after reading back: "+p.Name)
 	vf.Assert(sameGlobalSlices(g1, g3), "same global values after reading back: "+p.Name)
 	vf.Reach("gen")
+}
+
+// ---- positions in source modules
+
+// module names as an embedding application or a file import registers them:
+// plain, with directory parts, absolute, with an extension, dotted
+var c12ModNames = []string{"m", "lib/util", "./util", "a/b/c", "/abs/dir/mod.tengo", "mod.tengo", "../up", "x.y/z.w", "a//b", "lib/m"}
+
+// failing sites: each program fails at run time for every input; the trace
+// names positions in the main file and in one or two module files
+var c12ModSites = []struct{ name, mod, main string }{
+	{"in-module-function", "k := 1\nexport func(x) {\n  return x + \"s\" - k\n}", "f := import(\"@\")\nout := f(a)"},
+	{"in-module-body", "y := [1, 2]\nz := 1 +\n  y\nexport z", "out := a\nv := import(\"@\")"},
+	{"through-second-module", "export func(x) {\n  return -x\n}", "g := import(\"zz/apply\")\nf := import(\"@\")\nout := g(f, [a])"},
+	{"in-main-after-import", "export func(x) {\n  return [x]\n}", "f := import(\"@\")\nout := f(a) +\n  1"},
+}
+
+// C12_ModulePositions: programs that fail inside (or next to) a source module,
+// for every form of module name: the same error text and positions after
+// de-duplication and after writing the bytecode out and reading it back, and
+// the file set gives the same answer (file name, line, column) for the first
+// and last position of every file.
+func C12_ModulePositions() {
+	name := c12ModNames[vf.Choice("name", len(c12ModNames))]
+	site := c12ModSites[vf.Choice("site", len(c12ModSites))]
+	a := vf.Int64("a")
+	what := site.name + " module " + name
+	mods := tengo.NewModuleMap()
+	mods.AddSourceModule(name, []byte(site.mod))
+	mods.AddSourceModule("zz/apply", []byte("export func(f, x) {\n  return f(x)\n}"))
+	inputs := map[string]tengo.Object{"a": &tengo.Int{Value: a}}
+	bc, g1, _, err := compileRaw(substAt(site.main, name), inputs, []string{"a"}, mods)
+	vf.Assert(err == nil, "program compiles: "+what)
+	g2 := cloneGlobals(g1)
+	g3 := cloneGlobals(g1)
+	e1, p1, _ := runBC(bc, g1)
+	vf.Assert(e1 != nil && !p1, "the program fails with a run-time error: "+what)
+	pos1 := filePositions(bc.FileSet)
+	if vf.Choice("dedup-first", 2) == 1 {
+		bc.RemoveDuplicates()
+		e2, _, _ := runBC(bc, g2)
+		vf.Assert(errText(e1) == errText(e2), "same error text and positions after de-duplication: "+what+": `"+errText(e1)+"` vs `"+errText(e2)+"`")
+	}
+	var bc2 *tengo.Bytecode
+	var werr error
+	res := vf.Guard(func() { bc2, werr = writeReadBack(bc, mods) }, 6000000)
+	vf.Assert(res == 0 && werr == nil, "bytecode is written and read back: "+what+": "+vf.LastGuard())
+	e3, _, _ := runBC(bc2, g3)
+	vf.Assert(errText(e1) == errText(e3), "same error text and positions after reading back: "+what+": `"+errText(e1)+"` vs `"+errText(e3)+"`")
+	vf.Assert(pos1 == filePositions(bc2.FileSet), "the file set answers position queries alike after reading back: "+what)
+	vf.Reach("modpos")
+}
+
+// filePositions renders the first and last position of every file of a set.
+func filePositions(fs *parser.SourceFileSet) string {
+	out := ""
+	for _, f := range fs.Files {
+		for _, p := range []int{f.Base, f.Base + f.Size} {
+			sp := fs.Position(parser.Pos(p))
+			out += sp.String() + "|"
+		}
+	}
+	return out
 }
